@@ -704,7 +704,14 @@ class BuiltinMixin:
             if isinstance(v, VDict):
                 return VList(self.concrete_items(v), STR)
             if isinstance(v, VSet):
-                raise OutOfReach('list(set): order unspecified')
+                srt = ctx.sorts.sort_of(v.elem_kind)
+                L = ctx.fresh('list_of_set', z3.SeqSort(srt))
+                x = z3.Const('x!ls', srt)
+                i, j = z3.Int('i!ls'), z3.Int('j!ls')
+                path.assume(z3.ForAll([x], z3.Contains(L, z3.Unit(x)) == z3.IsMember(x, v.t), patterns=[z3.Contains(L, z3.Unit(x))]))
+                path.assume(z3.ForAll([i, j], z3.Implies(z3.And(0 <= i, i < j, j < z3.Length(L)), self.seq_nth(L, i) != self.seq_nth(L, j))))
+                ctx.assumptions.add('list(set): a sequence without repetitions whose elements are exactly those of the set, order unspecified')
+                return VSeq(L, v.elem_kind)
             raise OutOfReach(f'list({v.kind})')
         if name == 'tuple':
             v = args[0]
@@ -744,7 +751,7 @@ class BuiltinMixin:
             return self.sorted_model(args[0], kwargs, path, node)
         if name == 'set':
             if not args:
-                raise OutOfReach('set() of unknown element kind')
+                return VSet(None, None)          # empty set, element kind fixed by the contract's kinds hint or the annotation
             return self.seq_to_set(args[0], path)
         if name == 'frozenset':
             return self.seq_to_set(args[0], path)
